@@ -432,7 +432,10 @@ pub fn run_program(prog: Program, opts: &Opts, plan: noise::Plan) -> RunResult {
         if let Some(newmax) = ph.reconfig {
             noise::set_plan(noise::Plan::Off, ctx.prog.run_seed);
             // the maximum only changes between phases, at quiescence; raising is lazy, lowering is followed by despawn
-            let r = on_helper(native, watchdog, move || { let _ = newmax; configure_pool(newmax, PoolMode::Warm) });
+            let eager = ph.eager;
+            // while the maximum is being raised the new value already applies
+            POOL_MAX_NOW.store(newmax.max(cur_max), Ordering::SeqCst);
+            let r = on_helper(native, watchdog, move || { if eager { scheduler().set_max_threads(newmax); } else { configure_pool(newmax, PoolMode::Warm) } });
             match r {
                 Ok(()) => {}
                 Err(Wait::Quiescent(s)) => { outcome = Outcome::Stuck; stuck_snap = Some(s);
@@ -451,17 +454,50 @@ pub fn run_program(prog: Program, opts: &Opts, plan: noise::Plan) -> RunResult {
             spawn_caller(&ctx, 10 + t, acts.clone(), None, None);
         }
         if !ph.occupy.is_empty() {
-            let w = wait_until(native, watchdog, || ph.occupy.iter().all(|h| ctx.holds[*h].inside.load(Ordering::SeqCst) >= 1));
+            let w = wait_until(native, watchdog, || ph.occupy.iter().all(|h| ctx.holds[*h].inside.load(Ordering::SeqCst) >= 1) && (!ph.free_must_complete || expected_complete(&ctx, true)));
             match w {
                 Wait::Done => {}
                 Wait::Quiescent(s) => {
                     outcome = Outcome::Stuck; stuck_snap = Some(s);
                     let inside = ph.occupy.iter().filter(|h| ctx.holds[**h].inside.load(Ordering::SeqCst) >= 1).count();
                     let prop = if ctx.prog.panics { "C15" } else { "C10" };
-                    ctx.sink.report(prop, "pool_cannot_hold_its_maximum_of_blocked_bodies", format!("capacity:{}of{}:max{}", inside, ph.occupy.len(), cur_max),
-                        format!("phase '{}': {} bodies were scheduled on {} different objects with pool maximum {}, but only {} ever started; all threads quiet", ph.name, ph.occupy.len(), ph.occupy.len(), cur_max, inside));
+                    if inside < ph.occupy.len() || !ph.free_must_complete {
+                        ctx.sink.report(prop, "pool_cannot_hold_its_maximum_of_blocked_bodies", format!("capacity:{}of{}:max{}", inside, ph.occupy.len(), cur_max),
+                            format!("phase '{}': {} bodies were scheduled on {} different objects with pool maximum {}, but only {} ever started; all threads quiet", ph.name, ph.occupy.len(), ph.occupy.len(), cur_max, inside));
+                    } else {
+                        ctx.sink.report("C10", "independent_object_made_no_progress_while_others_blocked", format!("c10_stall:pool{}:held{}:{}", cur_max, ph.occupy.len(), ph.name),
+                            format!("phase '{}': all threads quiet with {} bodies blocked (pool maximum {}), yet operations on other objects are incomplete: {}", ph.name, inside, cur_max, incomplete_list(&ctx, true)));
+                    }
                 }
                 Wait::TimedOut => outcome = Outcome::Inconclusive("watchdog in capacity probe".into()),
+            }
+            if let (Some(lower), true) = (ph.lower_while_busy, outcome == Outcome::Completed) {
+                // lower the maximum and despawn while the pool threads are inside blocked bodies; then let the bodies go on
+                let done = Arc::new(AtomicBool::new(false));
+                let d2 = Arc::clone(&done);
+                let main = thread::current();
+                noise::set_plan(noise::Plan::Off, ctx.prog.run_seed);
+                spawn_task("vh-z".into(), Box::new(move || {
+                    let _ = catch_unwind(AssertUnwindSafe(|| configure_pool(lower, PoolMode::Warm)));
+                    d2.store(true, Ordering::SeqCst);
+                    main.unpark();
+                }));
+                // give the despawn a moment to reach its joins (whether it has is irrelevant for correctness), then release the bodies
+                if native { thread::sleep(Duration::from_micros(300)); } else { for _ in 0..200 { thread::yield_now(); } }
+                for h in &ph.occupy { ctx.holds[*h].open(); }
+                match wait_until(native, watchdog, || done.load(Ordering::SeqCst)) {
+                    Wait::Done => {
+                        POOL_MAX_NOW.store(lower, Ordering::SeqCst);
+                        cur_max = lower;
+                        if cfg!(feature = "hooks") && live_pool() > lower {
+                            ctx.report("C17", "pool_above_maximum_after_despawn", format!("despawn_left_threads:max{}", lower), format!("{} live pool threads after lowering the maximum to {} and despawn_threads_if_overloaded returned", live_pool(), lower));
+                        }
+                    }
+                    Wait::Quiescent(s) => { outcome = Outcome::Stuck; stuck_snap = Some(s);
+                        ctx.sink.report("C17", "pool_reconfiguration_never_returned", "despawn_hang_while_busy".into(), format!("lowering the maximum to {} and despawn_threads_if_overloaded, called while pool threads were busy, did not return; all threads quiet", lower)); }
+                    Wait::TimedOut => outcome = Outcome::Inconclusive("watchdog during despawn while busy".into()),
+                }
+                noise::set_plan(plan, ctx.prog.run_seed ^ 0x52);
             }
             for h in &ph.occupy { ctx.holds[*h].open(); }
         }
@@ -574,10 +610,21 @@ pub fn run_program(prog: Program, opts: &Opts, plan: noise::Plan) -> RunResult {
                 let c = Arc::clone(&ctx);
                 let r = on_helper(native, watchdog, move || {
                     for p in 0..c.prog.pipes.len() {
-                        if c.pipes[p].created.load(ORD) != 0 && c.pipes[p].closed_stamp.load(ORD) == 0 { crate::pipes::close_input(&c, p); }
+                        let chained = c.prog.pipes.iter().any(|pd| pd.chain_to == Some(p));   // ended by the pipe that feeds it
+                        if c.pipes[p].created.load(ORD) != 0 && c.pipes[p].closed_stamp.load(ORD) == 0 && !chained { crate::pipes::close_input(&c, p); }
                     }
                 });
-                if r.is_err() { outcome = Outcome::Inconclusive("closing the pipe inputs did not return".into()); }
+                match r {
+                    Ok(()) => {}
+                    Err(Wait::Quiescent(s)) => {
+                        outcome = Outcome::Stuck;
+                        let prop = if ctx.prog.pipes.iter().all(|pd| pd.through) { "C12" } else { "C11" };
+                        ctx.sink.report(prop, "ending_the_input_after_the_target_is_gone_blocks", "pipe_end_blocks".into(),
+                            "every owner of the pipe targets is gone; ending the input streams (the first stream event after that) never returned: the thread delivering the event is blocked inside the pipe's waker; all threads quiet".into());
+                        describe_state(&ctx, &objects, &s, &mut diag);
+                    }
+                    Err(_) => outcome = Outcome::Inconclusive("closing the pipe inputs did not return".into()),
+                }
                 let all_released = |ctx: &RunCtx| ctx.pipes.iter().all(|st| st.created.load(ORD) == 0 || (st.input_drops.load(ORD) == 1 && st.closure_drops.load(ORD) == 1));
                 if outcome == Outcome::Completed {
                     match wait_until(native, watchdog, || all_released(&ctx)) {
@@ -857,6 +904,14 @@ fn diagnose(ctx: &Arc<RunCtx>, objects: &[Option<Arc<Obj>>], snap: &[quiesce::Th
                 if ended { "finished" } else if ctx.recs[subject].start.load(ORD) != 0 { "started but not finished" } else { "not started" })));
     }
 
+    // (b0) an object that is marked as being run although nothing of it is executing: try_sync would answer Busy for ever
+    for obj in 0..prog.n_obj {
+        let st = state_of(&states, obj);
+        if (st == "Running" || st == "AwokenWhileRunning") && !someone_inside(obj) && !(prog.panics && oracle::object_panicked(ctx, obj)) {
+            found.push(("C09", "object_stays_busy_with_nothing_in_progress".into(), format!("busy_for_ever:{}:{}", st, pool_cond(ctx)),
+                format!("object {}: no operation of it is executing and all threads are quiet, but its queue is in state {}: try_sync answers Busy for ever (and sync/desync never get through)", obj, st)));
+        }
+    }
     // (b) root cause per object: the operation at the head of the unfinished work
     for obj in 0..prog.n_obj {
         let mut inc: Vec<OpId> = (0..prog.ops.len()).filter(|i| prog.ops[*i].obj == obj && ctx.recs[*i].accepted.load(ORD) && ctx.recs[*i].end.load(ORD) == 0
